@@ -1,5 +1,5 @@
 (** Correspondence glue for C16: a case is one variable, a population size and a history of
-    [simulation.set_input(var, period, array)] calls.  After every call the harness records
+    [simulation.set_input(var, period, array)] (and [delete_arrays(var, period)]) calls.  After every call the harness records
     ok / error kind, the holder's known periods with their arrays (in storage order; compared as the
     number of known periods and the entries that are new or changed) and, where asked, [calculate_add(var, period)]. *)
 From Coq Require Import ZArith QArith List Bool String.
@@ -7,10 +7,16 @@ From Verif Require Import Base Obs Cal Tables Period SetInput.
 Import ListNotations.
 Open Scope Z_scope.
 
+(* one call of the history:
+   [SSet P a add keys_only]: set_input(var, P, a); [add]: also run calculate_add(var, P);
+     [keys_only]: compare known periods only (the step is not exact in binary32 and ends its history);
+   [SDel P]: delete_arrays(var, P) *)
+Inductive step :=
+  | SSet (P : period) (a : arr) (add keys_only : bool)
+  | SDel (P : option period).
+
 Inductive case :=
-  | KHist (v : var) (n : Z) (steps : list (period * arr * (bool * bool))).
-    (* flags of a step: (also run calculate_add, compare known periods only - the step is not
-       exact in binary32 and ends its history) *)
+  | KHist (v : var) (n : Z) (steps : list step).
 
 Definition unit_code (u : unit_t) : Z :=
   match u with Weekday => 0 | Week => 1 | Day => 2 | Month => 3 | Year => 4 | Eternity => 5 end.
@@ -35,11 +41,10 @@ Definition hdiff (h h' : holder) : holder :=
                     | None => true
                     end) h'.
 
-Fixpoint run_hist (v : var) (n : Z) (h : holder) (steps : list (period * arr * (bool * bool)))
-  : list obs :=
+Fixpoint run_hist (v : var) (n : Z) (h : holder) (steps : list step) : list obs :=
   match steps with
   | [] => []
-  | (P, a, (want_add, keys_only)) :: rest =>
+  | SSet P a want_add keys_only :: rest =>
       let r := sim_set_input v n h P a in
       let h' := match r with Ok h' => h' | Err _ => h end in
       let status := match r with Ok _ => OZ 0 | Err e => OErr e end in
@@ -48,6 +53,9 @@ Fixpoint run_hist (v : var) (n : Z) (h : holder) (steps : list (period * arr * (
       (if keys_only then OL [status; size; okeys (hdiff h h'); ONone]
        else OL [status; size; oholder (hdiff h h'); add])
         :: run_hist v n h' rest
+  | SDel P :: rest =>
+      let h' := delete_arrays v h P in
+      OL [OZ 0; OZ (Z.of_nat (List.length h')); okeys h'; ONone] :: run_hist v n h' rest
   end.
 
 Definition run (c : case) : obs :=
